@@ -123,7 +123,11 @@ def plan(tier, seed):
     cases.append({"masses": "generic", "stratum": "signature", "rep": 0, "cost": 0.2})
     # the alignment angles a Dalitz-plot-decomposition model defines, for every reference subsystem (anchor:
     # _DPDAlignmentWignerGenerator uses the zeta angles)
-    for fx in DPD_FIXTURES:
+    fixtures = DPD_FIXTURES
+    if tier != "quick":
+        from vmon.workloads.reactions import fixture_names, load_fixture
+        fixtures = [f for f in fixture_names("helicity") if len(load_fixture(f).final_state) == 3]
+    for fx in fixtures:
         for ref in (1, 2, 3):
             cases.append({"masses": "generic", "stratum": "dpd_model", "fixture": fx, "ref": ref, "rep": 0, "cost": 3.0})
     return cases
@@ -474,6 +478,6 @@ def run_case(case, rec, ctx):
 
 META = {
     "technique": "runtime contracts on formulate_scattering_angle / formulate_theta_hat_angle / formulate_zeta_angle: lambdified results compared with angles measured on generated four-momenta and with the identities of the statement",
-    "level_text": "All index tuples the three functions accept are evaluated on masses derived from generated three-body events (six mass classes incl. massless/equal/near-threshold, five event strata incl. collinear and threshold) and judged against vector-algebra angles (theta-hat, scattering angle, elementary zeta angle) and the listed identities (antisymmetry, theta_ij+theta_ji=pi, zeta reference rules, cyclic sum rules, arccos domain). Observation of executions only. Route B (exact masses inserted before doit(), exact zeros for massless particles) is compared with the symbolic route for every formula. Dalitz-plot-decomposition models of three fixtures are formulated for every reference subsystem 1, 2, 3 and the alignment angles they define are judged: all relative to the requested reference, one per (rotated state with spin, chain spectator), value equal to formulate_zeta_angle(i,k,r), zero for the reference chain, every used angle defined.",
+    "level_text": "All index tuples the three functions accept are evaluated on masses derived from generated three-body events (six mass classes incl. massless/equal/near-threshold, five event strata incl. collinear and threshold) and judged against vector-algebra angles (theta-hat, scattering angle, elementary zeta angle) and the listed identities (antisymmetry, theta_ij+theta_ji=pi, zeta reference rules, cyclic sum rules, arccos domain). Observation of executions only. Route B (exact masses inserted before doit(), exact zeros for massless particles) is compared with the symbolic route for every formula. Dalitz-plot-decomposition models of three fixtures (thorough tier: all 29 three-body helicity fixtures) are formulated for every reference subsystem 1, 2, 3 and the alignment angles they define are judged: all relative to the requested reference, one per (rotated state with spin, chain spectator), value equal to formulate_zeta_angle(i,k,r), zero for the reference chain, every used angle defined.",
     "level_note": "Reference geometry follows the property text (angle of i w.r.t. -p_k in the (ij) frame); acos conditioning 1/sin(angle) enters the tolerance; points within rounding of the Dalitz boundary are judged only for arccos-domain excursions > 1e-7.",
 }
